@@ -7,3 +7,4 @@ INVARIANT J_TourServesJob
 INVARIANT J_TourUniqueVehicleShift
 INVARIANT J_PickupBeforeDelivery
 INVARIANT J_ConditionalWithinDefined
+INVARIANT J_OverallIsSumOfTours
